@@ -60,10 +60,16 @@ class ChoiceEnv(ScriptEnv):
         self.ch = chooser
         self.k = 0
 
+    warm = False  # the warm-up exchange of a reconfigured client is simply answered
+
     def on_write(self, data: bytes) -> str | None:
+        if self.warm:
+            return None
         return WRITE_EVENTS[self.ch.choose(len(WRITE_EVENTS))]
 
     def on_read(self, timeout: float | None) -> tuple[str, bytes | None]:
+        if self.warm:
+            return "PosFinal", reply_bytes("PosFinal", 0)
         cls = READ_EVENTS[self.ch.choose(len(READ_EVENTS))]
         self.k += 1
         return cls, reply_bytes(cls, self.k)
@@ -78,13 +84,19 @@ class ListEnv(ScriptEnv):
         self.pos = 0
         self.k = 0
 
+    warm = False
+
     def on_write(self, data: bytes) -> str | None:
+        if self.warm:
+            return None
         if self.pos < len(self.script) and self.script[self.pos] in ("WConnErr", "WTimeout"):
             self.pos += 1
             return self.script[self.pos - 1]
         return None
 
     def on_read(self, timeout: float | None) -> tuple[str, bytes | None]:
+        if self.warm:
+            return "PosFinal", reply_bytes("PosFinal", 0)
         # write faults in read position are skipped (cannot happen in generated scripts)
         while self.pos < len(self.script) and self.script[self.pos] in ("WConnErr", "WTimeout"):
             self.pos += 1
@@ -102,15 +114,30 @@ def limits(timeout_s: float) -> dict[str, int]:
 
 
 def execute(env: ScriptEnv, *, client_retry: int, override_retry: int | None,
-            client_timeout: float, override_timeout: float | None) -> dict[str, Any]:
-    """Run one real UDSClient.request() against env; return the trace record."""
+            client_timeout: float, override_timeout: float | None,
+            reconfigured_from: tuple[int, float] | None = None) -> dict[str, Any]:
+    """Run one real UDSClient.request() against env; return the trace record.
+    reconfigured_from = (max_retry, timeout): the client was constructed with these values, served one
+    config-less request, and was then reconfigured by attribute assignment (as `scan uds services` does with
+    `ecu.max_retry = 0`) to client_retry / client_timeout before the judged request."""
     R = override_retry if override_retry is not None else client_retry
     tmo = override_timeout if override_timeout is not None else client_timeout
     out: dict[str, Any] = {}
 
     async def go() -> None:
         tr = ScriptedTransport(env)
-        cl = UDSClient(tr, timeout=client_timeout, max_retry=client_retry)
+        if reconfigured_from is not None:
+            cl = UDSClient(tr, timeout=reconfigured_from[1], max_retry=reconfigured_from[0])
+            env.warm = True  # type: ignore[attr-defined]
+            try:
+                await cl.request(REQ)
+            finally:
+                env.warm = False  # type: ignore[attr-defined]
+                env.log.clear()
+            cl.max_retry = client_retry
+            cl.timeout = client_timeout
+        else:
+            cl = UDSClient(tr, timeout=client_timeout, max_retry=client_retry)
         cfg = None
         if override_retry is not None or override_timeout is not None:
             cfg = UDSRequestConfig(timeout=override_timeout, max_retry=override_retry)
@@ -162,7 +189,8 @@ def execute(env: ScriptEnv, *, client_retry: int, override_retry: int | None,
     return {"R": R, "lim": limits(tmo), "seq": seq, "outcome": outcome, "ms": ms,
             "reconnects": reconnects, "timeout_ms": int(tmo * 1000),
             "cfg": {"client_retry": client_retry, "override_retry": override_retry,
-                    "client_timeout": client_timeout, "override_timeout": override_timeout}}
+                    "client_timeout": client_timeout, "override_timeout": override_timeout,
+                    "reconfigured_from": list(reconfigured_from) if reconfigured_from else None}}
 
 
 def script_of(trace: dict[str, Any]) -> list[str]:
@@ -308,6 +336,16 @@ def run(tier: str, seed: int) -> Report:
 
             for _vec, t in explore(runit2, 3 if tier == "quick" else 4):
                 add(t, "enum-override")
+    # a client that was reconfigured by attribute assignment after it had served a request (the scanners do
+    # `ecu.max_retry = 0`): the judged request must follow the CURRENT values
+    for r0, t0, r1, t1 in ((3, 2.0, 0, 2.0), (0, 2.0, 2, 2.0), (2, 5.0, 1, 0.5), (1, 0.5, 1, 5.0)):
+
+        def runit3(ch: Any, r0: int = r0, t0: float = t0, r1: int = r1, t1: float = t1) -> dict[str, Any]:
+            return execute(ChoiceEnv(ch), client_retry=r1, override_retry=None, client_timeout=t1,
+                           override_timeout=None, reconfigured_from=(r0, t0))
+
+        for _vec, t in explore(runit3, 3 if tier == "quick" else 4):
+            add(t, "enum-reconfigured")
     # ---- 3. long scripts across the limits
     for script, R, ot in long_scripts():
         add(execute(ListEnv(script), client_retry=R, override_retry=None, client_timeout=2.0,
@@ -394,7 +432,8 @@ def replay(path: str) -> int:
         sc = [s for s in d["script"] if s != "..."]
         c = d["cfg"]
         t = execute(ListEnv(sc), client_retry=c["client_retry"], override_retry=c["override_retry"],
-                    client_timeout=c["client_timeout"], override_timeout=c["override_timeout"])
+                    client_timeout=c["client_timeout"], override_timeout=c["override_timeout"],
+                    reconfigured_from=tuple(c["reconfigured_from"]) if c.get("reconfigured_from") else None)
         verdict = validate([t])[0]
         print(f"replay script={sc[:12]} R={t['R']} outcome={t['outcome']} verdict={verdict}")
         bad += verdict != "ok"
